@@ -2,6 +2,7 @@ package main
 
 import (
 	"fmt"
+	"go/types"
 	"sort"
 	"strings"
 
@@ -316,14 +317,20 @@ func (P *Program) CallsNamed(fn *ssa.Function, name string, depth int) bool {
 					continue
 				}
 				if c.IsInvoke() {
-					if "."+c.Method.Name() == name {
+					if "."+c.Method.Name() == name && !isPureCall(pkgOf(c.Method), name, c.Method, c.Signature()) {
 						return true
 					}
 					continue
 				}
 				if sf := c.StaticCallee(); sf != nil {
 					if funcShortName(sf) == name {
-						return true
+						var o *types.Func
+						if oo, ok := sf.Object().(*types.Func); ok {
+							o = oo
+						}
+						if !isPureCall(fnPkgPath(sf), name, o, sf.Signature) {
+							return true
+						}
 					}
 					if d > 0 && isSubjectPkg(fnPkgPath(sf)) {
 						if rec(sf, d-1) {
@@ -432,4 +439,11 @@ func (p *Path) FactsMention(k string) bool {
 		}
 	}
 	return false
+}
+
+func pkgOf(f *types.Func) string {
+	if f != nil && f.Pkg() != nil {
+		return f.Pkg().Path()
+	}
+	return ""
 }
